@@ -128,3 +128,15 @@ __CPROVER_assigns(__CPROVER_object_whole(out2), __CPROVER_object_whole(back3), *
 __CPROVER_ensures(RET == (hasValue ? 2 : 1))
 __CPROVER_ensures(hasValue ? (out2[0] == value && out2[1] == typeId) : out2[0] == typeId)
 __CPROVER_ensures(*rok != 0 && back3[0] == (hasValue != 0) && (hasValue == 0 || back3[1] == value) && back3[2] == typeId);
+
+/* readArrayOf: [count: single BE value read as int32][count items]. accepted => min <= count <= max (a negative count is never
+ * accepted) and exactly count items were read; the allocation request (reserve) never exceeds max (ALLOC obligation in the model) */
+extern size_t vstd_alloc_limit;
+int w_readArrayOf_c(void* rs, size_t min, size_t max, size_t* out2)
+RS_FRESH(rs)
+__CPROVER_requires(__CPROVER_is_fresh(out2, 2 * sizeof(size_t)) && max <= 0x7fffffffUL)
+__CPROVER_assigns(R(rs)->m_Pos, __CPROVER_object_whole(out2), vstd_alloc_limit)
+RS_KEEPS(rs)
+__CPROVER_ensures(RET != 0 ==> (BE_OK(rs, int32_t) && VL_LEN(rs) >= 0 && min <= (size_t)VL_LEN(rs) && (size_t)VL_LEN(rs) <= max))
+__CPROVER_ensures(RET != 0 ==> (out2[0] == (size_t)VL_LEN(rs) && R(rs)->m_Pos == OLDPOS(rs) + VL_HDR(rs) + out2[0]))
+__CPROVER_ensures((RET != 0 && out2[0] > 0) ==> out2[1] == OLDBUF(rs, VL_HDR(rs)));
